@@ -329,8 +329,8 @@ OK_DEF_TMPL = """fun c : cform * cform * cform * list (res cform) =>
   let '(f, g, h, rs) := c in
   let b2f := fun b : bool => if b then FSmt CTrue else FSmt CFalse in
   let model := [ Ok (c_neg f); Ok (c_and f g); Ok (c_or f g); Ok (c_nnf f false); Ok (c_nnf f true);
-                 c_dnf FIXED true f; c_dnf FIXED false f;
-                 bind (c_invariant FIXED f) (fun l => Ok (FAnd l));
+                 c_dnf true f; c_dnf false f;
+                 bind (c_invariant f) (fun l => Ok (FAnd l));
                  Ok (b2f (c_feqb f g)); Ok (FAnd (c_split_conj f)); Ok (FAnd (c_split_disj f));
                  Ok (c_replace f g h);
                  match c_unique f with Some u => Ok u | None => Raise OtherErr end ] in
@@ -345,8 +345,8 @@ DIAG_TMPL = """(map (fun c : cform * cform * cform * list (res cform) =>
   let '(f, g, h, rs) := c in
   let b2f := fun b : bool => if b then FSmt CTrue else FSmt CFalse in
   let model := [ Ok (c_neg f); Ok (c_and f g); Ok (c_or f g); Ok (c_nnf f false); Ok (c_nnf f true);
-                 c_dnf FIXED true f; c_dnf FIXED false f;
-                 bind (c_invariant FIXED f) (fun l => Ok (FAnd l));
+                 c_dnf true f; c_dnf false f;
+                 bind (c_invariant f) (fun l => Ok (FAnd l));
                  Ok (b2f (c_feqb f g)); Ok (FAnd (c_split_conj f)); Ok (FAnd (c_split_disj f));
                  Ok (c_replace f g h);
                  match c_unique f with Some u => Ok u | None => Raise OtherErr end ] in
@@ -359,69 +359,20 @@ DIAG_TMPL = """(map (fun c : cform * cform * cform * list (res cform) =>
 
 # --------------------------------------------------------------------------
 # known-finding classes: python mirrors of the Coq predicates of the same name
-# (Logic/RewriteFacts.v: dsafe, K_dnf_nary, K_dnf_not_nnf, K_vacuous_forall)
+# (Logic/RewriteFacts.v: dsafe, K_dnf_not_nnf, K_shadow)
 # --------------------------------------------------------------------------
-def dsafe(fixed, f):
+def dsafe(f):
     if isinstance(f, NegatedFormula):
         return not isinstance(f.args[0], L.PropositionalCombinator)
-    if isinstance(f, ConjunctiveFormula):
-        return (fixed or len(f.args) == 2) and all(dsafe(fixed, a) for a in f.args)
-    if isinstance(f, DisjunctiveFormula):
-        return all(dsafe(fixed, a) for a in f.args)
+    if isinstance(f, (ConjunctiveFormula, DisjunctiveFormula)):
+        return all(dsafe(a) for a in f.args)
     if isinstance(f, (ForallFormula, ExistsFormula)):
-        return dsafe(fixed, f.inner_formula)
+        return dsafe(f.inner_formula)
     return True
 
 
-def k_dnf_nary(f):
-    return dsafe(True, f) and not dsafe(False, f)
-
-
 def k_dnf_not_nnf(f):
-    return not dsafe(True, f)
-
-
-def k_vacuous_forall(f):
-    if isinstance(f, (NegatedFormula, ConjunctiveFormula, DisjunctiveFormula)):
-        return any(k_vacuous_forall(a) for a in f.args)
-    if isinstance(f, ForallFormula):
-        if f.bind_expression is None and f.bound_variable not in f.inner_formula.free_variables():
-            return True
-        return k_vacuous_forall(f.inner_formula)
-    if isinstance(f, (ExistsFormula, ForallIntFormula, ExistsIntFormula)):
-        return k_vacuous_forall(f.inner_formula)
-    return False
-
-
-def k_vacuous_on(f, tree):
-    """tree-dependent form of the class K_vacuous_forall: some universal tree quantifier without
-    match expression has an EMPTY domain for some instantiation of its in-variable on this tree
-    (then ForallFormula.substitute_expressions may drop it once its body has been simplified to a
-    formula that no longer mentions the variable, and evaluate() returns the body's verdict
-    instead of TRUE).  Over-approximation: candidates of a variable = all subtrees of its type
-    inside any candidate of its in-variable."""
-    def inside(cands, typ):
-        out = []
-        for c in cands:
-            out += [s for _, s in c.paths() if s.value == typ and s is not c]
-        return out
-
-    def go(g, env):
-        if isinstance(g, (NegatedFormula, ConjunctiveFormula, DisjunctiveFormula)):
-            return any(go(a, env) for a in g.args)
-        if isinstance(g, (ForallFormula, ExistsFormula)):
-            src = env.get(g.in_variable, [])
-            if isinstance(g, ForallFormula) and g.bind_expression is None:
-                if any(not inside([c], g.bound_variable.n_type) for c in src):
-                    return True
-            env2 = dict(env)
-            for v in g.bound_variables():
-                env2[v] = inside(src, v.n_type)
-            return go(g.inner_formula, env2)
-        if isinstance(g, (ForallIntFormula, ExistsIntFormula)):
-            return go(g.inner_formula, env)
-        return False
-    return go(f, {START: [tree]})
+    return not dsafe(f)
 
 
 def k_shadow(f, bound=frozenset()):
@@ -443,26 +394,11 @@ def item_tree(chars):
     return DerivationTree("<start>", [seq(chars)])
 
 
-def dnf_nary_witness():
-    pa, pb, pc, pd = (smt_eq(START, s) for s in "abxy")
-    return ConjunctiveFormula(pa, DisjunctiveFormula(pb, pc), pd)
-
-
-def defect_present():
-    try:
-        L.convert_to_dnf(dnf_nary_witness())
-        return False
-    except ValueError:
-        return True
-
-
 def still_present(key):
-    """replay the recorded witness of an open finding on the implementation"""
+    """replay the recorded witness of an OPEN finding on the implementation"""
     x = BoundVariable("x", "<item>")
     pa, pb, pc, pd = (smt_eq(START, s) for s in "abxy")
     try:
-        if key == "dnf-nary":
-            return defect_present()
         if key == "dnf-body-not-nnf":
             f = ConjunctiveFormula(ForallFormula(x, START, NegatedFormula(ConjunctiveFormula(smt_eq(x, "a"), smt_eq(x, "b")))),
                                    DisjunctiveFormula(pc, pd))
@@ -471,12 +407,6 @@ def still_present(key):
                 return False
             except AssertionError:
                 return True
-        if key == "vacuous-forall":
-            t = item_tree("x")
-            src = 'forall <item> i in start: forall <b> s in i: i = "q"'
-            neg = 'exists <item> i in start: exists <b> s in i: not i = "q"'
-            a, b = evaluate(src, t, GRAMMAR), evaluate(neg, t, GRAMMAR)
-            return a.is_false() and b.is_false()
         if key == "unique-shadow":
             f = ForallFormula(x, START, ForallFormula(x, x, smt_eq(x, "a")))
             g = L.ensure_unique_bound_variables(f)
@@ -485,6 +415,53 @@ def still_present(key):
     except Exception:
         return False
     return False
+
+
+def corpus_failures():
+    """witnesses of the FIXED findings (dnf-nary: /repo 71bb9ab, vacuous-forall: /repo 0230f8f):
+    they must pass; a regression is a failing input"""
+    out = []
+    pa, pb, pc, pd = (smt_eq(START, s) for s in "abxy")
+    x = BoundVariable("x", "<item>")
+    nary = ConjunctiveFormula(pa, DisjunctiveFormula(pb, pc), pd)
+    for name, f, call in [
+        ("dnf-nary", nary, lambda f: L.convert_to_dnf(f)),
+        ("dnf-nary (shallow)", nary, lambda f: L.convert_to_dnf(f, deep=False)),
+        ("dnf-nary (quantifier body, establish_invariant)",
+         ConjunctiveFormula(ForallFormula(x, START, ConjunctiveFormula(smt_eq(x, "a"), DisjunctiveFormula(smt_eq(x, "b"), pa), pb)),
+                            DisjunctiveFormula(pc, pd)),
+         lambda f: L.convert_to_dnf(L.convert_to_nnf(f), deep=False)),
+    ]:
+        try:
+            g = call(f)
+        except Exception as e:
+            out.append({"corpus": name, "f": str(f), "raised": type(e).__name__, "msg": str(e)[:200]})
+            continue
+        for chars in ["a", "b", "xy", "ya"]:
+            t = item_tree(chars)
+            if ev(f, t) != ev(g, t):
+                out.append({"corpus": name, "f": str(f), "rewritten": str(g), "tree": chars,
+                            "before": ev(f, t), "after": ev(g, t)})
+    # vacuous universal quantifiers: a constraint and its negation must have opposite verdicts
+    for src, neg, chars, expect in [
+        ('forall <item> i in start: forall <b> s in i: i = "q"',
+         'exists <item> i in start: exists <b> s in i: not i = "q"', "x", True),
+        ('forall <item> i in start: forall <seq> s in i: i = "q"',
+         'exists <item> i in start: exists <seq> s in i: not i = "q"', "ab", True),
+    ]:
+        t = item_tree(chars)
+        a, b = ev(src, t), ev(neg, t)
+        if a != ("ok", expect) or b != ("ok", not expect):
+            out.append({"corpus": "vacuous-forall", "constraint": src, "negation": neg, "tree": chars,
+                        "verdict": a, "verdict_negation": b})
+    f = ForallFormula(BoundVariable("x_1", "<b>"), START,
+                      ConjunctiveFormula(smt_eq(START, "x", True), smt_eq(BoundVariable("x_1", "<b>"), "a")))
+    t = item_tree("x")
+    a, b = ev(f, t), ev(-f, t)
+    if a != ("ok", True) or b != ("ok", False):
+        out.append({"corpus": "vacuous-forall (body simplifies to false)", "f": str(f), "tree": "x",
+                    "verdict": a, "verdict_negation": b})
+    return out
 
 
 # --------------------------------------------------------------------------
@@ -533,10 +510,7 @@ def oracle(f, g, trees, known, stats):
                 nf = L.convert_to_nnf(f)
             except Exception:
                 pass
-            if isinstance(e, ValueError) and name.startswith("dnf") and nf is not None and not dsafe(False, nf) \
-                    and "dnf-nary" in known:
-                stats["known_dnf-nary"] += 1
-            elif isinstance(e, AssertionError) and name.startswith("dnf") and nf is not None and k_dnf_not_nnf(nf) \
+            if isinstance(e, AssertionError) and name.startswith("dnf") and nf is not None and k_dnf_not_nnf(nf) \
                     and "dnf-body-not-nnf" in known:
                 stats["known_dnf-body-not-nnf"] += 1
             else:
@@ -554,9 +528,6 @@ def oracle(f, g, trees, known, stats):
             vr = ev(rw, t)
             stats["evaluate_calls"] += 1
             if vr == ("ok", expect(vf[1], vg[1])):
-                continue
-            if "vacuous-forall" in known and any(k_vacuous_forall(x) or k_vacuous_on(x, t) for x in (f, g, rw)):
-                stats["known_vacuous-forall"] += 1
                 continue
             failing.append({"rewrite": name, "f": str(f), "g": str(g), "tree": str(t), "before": vf,
                             "before_g": vg, "after": vr, "rewritten": str(rw)})
@@ -580,8 +551,6 @@ def run(run):
         "Property oracle: evaluate() before/after each rewrite on generated closed trees (formulas without "
         "name shadowing). non-trivial = f has a connective of arity >= 2 below a negation or a quantifier")
     proof_ok = run.proof_stage()
-    fixed = not defect_present()
-    run.cov["dnf_nary_defect_present"] = not fixed
 
     # ---- known findings: replay each open entry's witness ----
     known = {}
@@ -673,10 +642,9 @@ def run(run):
         run.sample({"f": str(f), "g": str(g), "style": style,
                     "nnf": str(summ[3][1]), "dnf": str(summ[5][1]), "eq": str(summ[8][1])})
 
-    fx = "true" if fixed else "false"
     disagreements = []
     try:
-        bad, dt = lib.coq_run_shards("c09", "Rewrite", OK_DEF_TMPL.replace("FIXED", fx), shards)
+        bad, dt = lib.coq_run_shards("c09", "Rewrite", OK_DEF_TMPL, shards)
         run.cov["coq_seconds"] = round(dt, 1)
         by_shard = {}
         for k, i in bad:
@@ -686,7 +654,7 @@ def run(run):
             if n_sh < 4:
                 defs, cases = shards[k]
                 sel = [cases[i] for i in idxs[:8]]
-                out = lib.coq_eval(f"c09diag{k}", "Rewrite", DIAG_TMPL.replace("FIXED", fx),
+                out = lib.coq_eval(f"c09diag{k}", "Rewrite", DIAG_TMPL,
                                    extra_defs=defs + "Definition cs := [\n" + ";\n".join(sel) + "\n].\n")
                 body = out.split("=", 1)[-1]
                 rows = [r for r in re.findall(r"\[((?:true|false|;|\s)+)\]", body)]
@@ -705,9 +673,10 @@ def run(run):
     budget = 600 if thorough else 40
     trees = [gen_tree(rng) for _ in range(12)]
     stats = {k: 0 for k in ["evaluate_calls", "base_not_evaluable", "nonconstant", "skipped_recursion",
-                            "known_dnf-nary", "known_dnf-body-not-nnf", "known_vacuous-forall",
+                            "known_dnf-body-not-nnf",
                             "skipped_shadowing", "skipped_numeric", "formulas"]}
-    failing = []
+    failing = corpus_failures()
+    run.cov["corpus_cases_failing"] = len(failing)
     flat_meta = [m for ms in smeta for m in ms]
     order = [m for m in flat_meta if m[4] in ("hand", "parsed")] + [m for m in flat_meta if m[4] not in ("hand", "parsed")]
     for (f, g, h, summ, style) in order:
